@@ -200,6 +200,12 @@ def step (st : St) (j : Json) : Except String (St × Json × List Fired) := do
               let got := ((x.packets.getLast?.map (·.2)).getD []).map (·.sid)
               if got ≠ want then
                 fired := fired ++ [{ name := "packet_signals_wrong", detail := mkObj [("tunnel", jn id), ("got", jl (got.map js)), ("want", jl (want.map js))] }]
+              -- what was sent becomes the reference of the next deviation check, whatever its status (a price reported as 0 /
+              -- not available is a sent value too): otherwise the same move re-triggers a packet and a fee every block
+              let sent := (x.packets.getLast?.map (·.2)).getD []
+              let stale := sent.filter fun p => !(x.latest.any fun q => q.sid == p.sid && q.status == p.status && q.price == p.price)
+              if !stale.isEmpty then
+                fired := fired ++ [{ name := "sent_price_did_not_become_the_reference", detail := mkObj [("tunnel", jn id), ("signals", jl (stale.map fun p => js p.sid))] }]
             else if x.active && (x.payer ≠ s.payerBal id || x.seq ≠ t.sequence || x.latest != t.latest) then
               fired := fired ++ [{ name := "failed_or_skipped_production_left_a_trace", detail := mkObj [("tunnel", jn id)] }]
           -- stored packets are exactly 1..sequence
